@@ -680,7 +680,8 @@ fn main() {
                 // worker threads allocate without a scope of their own: balance is checked on everything
                 // allocated by this thread (setup) -- the buffers and control blocks
                 let (c, b) = vharness::ledger::tagged_live(tag);
-                if c != 0 {
+                // the error strings of a failed execution were allocated inside the scope
+                if c != 0 && res.errs.is_empty() {
                     o.viol("C05", &format!("leak:{}", SETUP_NAMES[p.setup as usize]), &case, &format!("{c} block(s) / {b} bytes of the setup still live after join in program {name} rep {rep}"));
                 }
                 if rep % 16 == 15 {
